@@ -70,7 +70,7 @@ m('c16-r5-strains-extra-setting', 'C16', 'C16-R5', 'mania:settings', (
 # ---- C03 / C04 ----------------------------------------------------------------------------------------------
 m('c03-r2-drop-state', 'C03', 'C03-R2', 'taiko:nth:state', (
     'src/taiko/performance/gradual.rs', "            .state(state)\n", "            .state(TaikoScoreState { misses: state.misses, ..Default::default() })\n"))
-m('c03-r2-drop-difficulty', 'C03', 'C03-R2', 'mania:nth:difficulty', (
+m('c03-r2-drop-difficulty', 'C03', 'C03-R2', 'mania:nth:setting:lazer', (
     'src/mania/performance/gradual.rs', "            .difficulty(self.difficulty.difficulty.clone())\n", "            .mods(self.difficulty.difficulty.get_mods().clone())\n"))
 m('c03-r2-wrong-n', 'C03', 'C03-R2', 'catch:nth:inner', (
     'src/catch/performance/gradual.rs', "            .nth(n)?", "            .nth(n.saturating_sub(0).min(usize::MAX - 1))?"))
